@@ -40,6 +40,7 @@ theorem FInvX.supOnline {s : SState} {ex : Option Nat} (h : FInvX s ex) (c : Cli
   repeat' split
   · fframe h
   · exact h.failAttempt _ _
+  · exact h1.failAttempt _ _
   · exact FInvX.frame (h1.put s.nextID.1 { resub := true }) (by simp) (by simp) (by simp) (by simp) (by simp)
   · exact (h1.put s.nextID.1 { resub := true }).failAttempt _ _
 
@@ -186,6 +187,7 @@ theorem FInvX.clientCall {s : SState} {cmd : Cmd} (h : FInvX s (some cmd.n)) (c 
   dsimp only
   repeat' split
   · exact (h.resolveHeld .cancelled (by simp)).leaveDispatcher _
+  · exact (h0.resolveHeld .cancelled (by simp)).leaveDispatcher _
   · -- QoS 0: completed at once, the future is taken out of the store again
     have h3 : FInvX ((saveOutgoing ((allocID s cmd.kind).2.put (allocID s cmd.kind).1 {}) cmd.kind
         (allocID s cmd.kind).1).pushHanded c.conn cmd.n) (some cmd.n) := by fframe h2
